@@ -106,6 +106,36 @@ def run(ctx):
         if not ok:
             ctx.violation("POST", b.path, "delegation", "range impl does not return range_bounds(_, size) unchanged with its own size argument", sites=[b.loc])
 
+    # ---------- (a') delegation keeps the selector's kind and bounds ------------------------------------
+    ctx.rule("DELEGATE-KIND", "range impls forward a range of their own kind whose bounds are only converted (no arithmetic): resolution happens in range_bounds alone", floor=51)
+    CONV = r"(?:surface::index_i64\(%s\)|\(%s as i64\)|i64::from\(%s\)|%s)"
+
+    def conv(x):
+        return CONV % ((re.escape(x),) * 4)
+    for b in bodies:
+        if b in direct:
+            continue
+        calls = [(bb, t) for bb, t in b.calls() if call_matches(t, r"^surface::range_bounds$")]
+        if len(calls) != 1:
+            continue
+        from ..flow import expr as _expr
+        e = _expr(b, calls[0][1]["args"][0])
+        kind = re.sub(r"<.*$", "", b.impl_self).split("::")[-1]
+        tmpl = {
+            "RangeFull": r"^arg1$",
+            "Range": r"^Range\{start: %s, end: %s\}$" % (conv("arg1.start"), conv("arg1.end")),
+            "RangeFrom": r"^RangeFrom\{start: %s\}$" % conv("arg1.start"),
+            "RangeTo": r"^RangeTo\{end: %s\}$" % conv("arg1.end"),
+            "RangeInclusive": r"^RangeInclusive::new\(%s, %s\)$" % (conv("RangeInclusive::start(arg1)"), conv("RangeInclusive::end(arg1)")),
+            "RangeToInclusive": r"^RangeToInclusive\{end: %s\}$" % conv("arg1.end"),
+        }.get(kind)
+        ok = tmpl is not None and re.match(tmpl, e) is not None
+        ctx.instance("DELEGATE-KIND", {"impl": b.impl_self, "forwards": e[:140], "ok": ok})
+        if not ok:
+            ctx.violation("DELEGATE-KIND", b.path, "forwarded-selector",
+                          "%s does not forward a %s with converted bounds to range_bounds (got %s): bound arithmetic outside range_bounds makes this selector form resolve differently from its siblings" % (b.impl_self, kind, e[:160]),
+                          sites=[b.loc])
+
     # ---------- (c) width -------------------------------------------------------------------------------
     ctx.rule("WIDTH", "no arithmetic in a type narrower than 64 bits inside any view_bounds impl / range_bounds", floor=61)
     for b in bodies + [rb] + prog.closures_of(rb):
